@@ -46,7 +46,7 @@ Content ==
     s9 |-> [type |-> "css",    kind |-> "dict",   text |-> "absent", table |-> "S2",  opt |-> "D", cache |-> "none", bem |-> FALSE, scope |-> "none"],     \* a dict-valued option (stylesheet.unitAliases)
     s10 |-> [type |-> "css",   kind |-> "dict",   text |-> "absent", table |-> "S3",  opt |-> "B", cache |-> "k1",   bem |-> FALSE, scope |-> "none"] ]    \* S3: a table that cannot be converted - every call raises
 Caches == {"k1", "k2", "k3"}
-MarkupAbbrs == {"ok", "wrap", "badparse", "badsnippet", "bem", "var"}          \* "var": a snippet that reads a variable of the configuration      \* "badsnippet" fails while snippets are resolved iff the table is MS1
+MarkupAbbrs == {"ok", "wrap", "badparse", "badsnippet", "bem", "var", "empty"}      \* "empty": the empty abbreviation (no node at all) - every step is still taken          \* "var": a snippet that reads a variable of the configuration      \* "badsnippet" fails while snippets are resolved iff the table is MS1
 CssAbbrs == {"num", "tab", "plain", "raw", "fnarg", "fnbare", "alias", "badparse"}                     \* "num": a snippet supplies a number that takes the caller's unit; "raw": a raw snippet (section scope); "fnarg" / "fnbare": a function keyword of a snippet with and without arguments
 
 VARIABLES userText, cache, live, pc, cur, seenText, results, ncalls
